@@ -1102,14 +1102,15 @@ class MoneyConverter:
         # create all exchange rates before anything gets changed, so that a
         # rejected rate spec does not leave a partially updated converter
         base_currency = self._base_currency
-        rates = [((validity, term_currency),
-                  ExchangeRate(base_currency, unit_multiple, term_currency,
-                               term_amount))
+        rates = [ExchangeRate(base_currency, unit_multiple, term_currency,
+                              term_amount)
                  for term_currency, term_amount, unit_multiple in rate_specs]
         # update internal dict
         if type_of_validity is None:
             self._type_of_validity = type(validity)
-        self._rate_dict.update(rates)
+        # a term currency given by its symbol is stored under the currency
+        self._rate_dict.update(((validity, rate.term_currency), rate)
+                               for rate in rates)
 
     def get_rate(self, unit_currency: Currency, term_currency: Currency,
                  effective_date: Optional[date] = None) \
